@@ -82,6 +82,10 @@ structure PState where
   hasHash : Bool := false
 deriving Repr
 
+/-- `self._source if self._source else self._package` -/
+def PState.srcName (s : PState) (pkg : S) : S :=
+  match s.source with | some x => if x.isEmpty then pkg else x | none => pkg
+
 def hashPrefixes : List S := ["MD5Sum:".toList, "SHA1:".toList, "SHA256:".toList, "SHA512:".toList]
 
 /-- one line of `PackagesParser._do_parse_index` -/
@@ -116,8 +120,7 @@ def packagesLine (flt : Filter) (ignored : List Path) (st : PState × List PoolF
     | some pkg, some fp =>
       if pkg.isEmpty || s.size = 0 then pure ({}, pool)
       else
-        let srcName := match s.source with | some x => if x.isEmpty then pkg else x | none => pkg
-        if !flt.allowed srcName (some pkg) then pure ({}, pool)
+        if !flt.allowed (s.srcName pkg) (some pkg) then pure ({}, pool)
         else pure ({}, putPool pool { path := fp, size := s.size, ignoreErrors := shouldIgnore ignored fp })
     | _, _ => pure ({}, pool)
 
